@@ -5,7 +5,7 @@
 //! server number), so that "which server saw the query" is observed directly.
 //!
 //! Case line (see coq/Model/EntryC15.v):
-//!   1 <table> <query name> rd | res nhits hit*
+//!   1 <table> <query name> rd | res rcode nhits hit*
 #[path = "../util.rs"]
 mod util;
 use erbium::dns::{self, dnspkt, verif as hk};
@@ -218,17 +218,35 @@ async fn load(yaml: &str, ups: &Upstreams) -> Result<(erbium::config::SharedConf
     Ok((conf, table))
 }
 
-async fn run_query(router: &Arc<hk::Router>, ups: &Upstreams, q: &Name, rd: bool, qid: u16) -> (u64, Vec<u64>) {
+/// result code, rcode the client would see (65535: none), servers hit
+async fn run_query(router: &Arc<hk::Router>, ups: &Upstreams, q: &Name, rd: bool, qid: u16) -> (u64, u64, Vec<u64>) {
     let before: Vec<u64> = ups.hits.iter().map(|h| h.load(Ordering::SeqCst)).collect();
     let msg = mk_msg(q, rd, qid);
     let r2 = router.clone();
-    let res = match tokio::spawn(async move { r2.handle_query(&msg).await }).await {
-        Err(_) => 5,
-        Ok(Ok(_)) => 0,
-        Ok(Err(dns::Error::Blocked)) => 1,
-        Ok(Err(dns::Error::NoRouteConfigured)) => 2,
-        Ok(Err(dns::Error::NotAuthoritative)) => 3,
-        Ok(Err(_)) => 4,
+    let out = tokio::spawn(async move { r2.handle_query(&msg).await }).await;
+    let (res, err) = match out {
+        Err(_) => (5, None),
+        Ok(Ok(_)) => (0, None),
+        Ok(Err(e)) => (
+            match e {
+                dns::Error::Blocked => 1,
+                dns::Error::NoRouteConfigured => 2,
+                dns::Error::NotAuthoritative => 3,
+                _ => 4,
+            },
+            Some(e),
+        ),
+    };
+    // what the listener makes of the error: the rcode in the reply to the client
+    let rc = match err {
+        Some(e) => {
+            let msg = mk_msg(q, rd, qid);
+            match tokio::spawn(async move { hk::create_in_error(&msg, e).await }).await {
+                Ok(p) => p.rcode.0 as u64,
+                Err(_) => 65534,
+            }
+        }
+        None => 65535,
     };
     let hits = ups
         .hits
@@ -237,16 +255,16 @@ async fn run_query(router: &Arc<hk::Router>, ups: &Upstreams, q: &Name, rd: bool
         .filter(|(i, h)| h.load(Ordering::SeqCst) > before[*i])
         .map(|(i, _)| i as u64)
         .collect();
-    (res, hits)
+    (res, rc, hits)
 }
 
-fn case_line(table: &Table, q: &Name, rd: bool, res: u64, hits: &[u64]) -> Toks {
+fn case_line(table: &Table, q: &Name, rd: bool, res: u64, rc: u64, hits: &[u64]) -> Toks {
     let mut t = Toks::new();
     t.n(1);
     put_table(&mut t, table);
     put_name(&mut t, q);
     t.b(rd);
-    t.n(res).n(hits.len() as u64);
+    t.n(res).n(rc).n(hits.len() as u64);
     for &h in hits {
         t.n(h);
     }
@@ -438,7 +456,7 @@ async fn run_table(
     match load(&yaml, ups).await {
         Err(code) => {
             for (q, rd) in queries {
-                writeln!(out, "{}", case_line(intent, q, *rd, code, &[]).0).unwrap();
+                writeln!(out, "{}", case_line(intent, q, *rd, code, 65535, &[]).0).unwrap();
                 *count += 1;
             }
         }
@@ -447,9 +465,9 @@ async fn run_table(
             let router = Arc::new(hk::Router::new(conf).await);
             for (q, rd) in queries {
                 *qid = qid.wrapping_add(1);
-                let (res, hits) = run_query(&router, ups, q, *rd, *qid).await;
+                let (res, rc, hits) = run_query(&router, ups, q, *rd, *qid).await;
                 let res = if same { res } else { 7 };
-                writeln!(out, "{}", case_line(&loaded, q, *rd, res, &hits).0).unwrap();
+                writeln!(out, "{}", case_line(&loaded, q, *rd, res, rc, &hits).0).unwrap();
                 *count += 1;
             }
         }
